@@ -48,6 +48,20 @@ theorem exporter_shape_as_modelled :
     statementArmsAsModelled = true ∧ ifElseArmAsModelled = true ∧ statementWrapperAsModelled = true ∧
     forInitAsModelled = true ∧ expressionArmsAsModelled = true ∧ helperBodiesAsModelled = true := by decide
 
+/-- **statement attributes** (`[branch]`, `[flatten]`, `[unroll]`, `[unroll(n)]`, `[loop]`, `[fastopt]`,
+`[allow_uav_condition]`; hints without a meaning in either semantics, outside `Ir.Stmt`): the exporter's table and the
+type checker's table (both re-extracted) are inverse to each other — every attribute variant is emitted under a name the
+type checker reads back as that very variant, every variant is emitted, no two variants share a name, and only
+`Unroll(Some(v))` carries an argument (the count `v` as an unsuffixed literal).  So the attribute written in the source
+is the attribute emitted; that it stays on its statement is `statementWrapperAsModelled` (and the harness's oracle). -/
+theorem statement_attribute_names_roundtrip :
+    (∀ e ∈ statementAttributeEmitted, (e.2.2.1, e.1) ∈ statementAttributeParsed) ∧
+    (∀ k ∈ statementAttributeKinds, ∃ e ∈ statementAttributeEmitted, e.1 = k) ∧
+    (∀ e ∈ statementAttributeEmitted, e.1 ∈ statementAttributeKinds) ∧
+    (∀ e₁ ∈ statementAttributeEmitted, ∀ e₂ ∈ statementAttributeEmitted, e₁.2.2.1 = e₂.2.2.1 → e₁.1 = e₂.1) ∧
+    (∀ p₁ ∈ statementAttributeParsed, ∀ p₂ ∈ statementAttributeParsed, p₁.1 = p₂.1 → p₁.2 = p₂.2) ∧
+    (∀ e ∈ statementAttributeEmitted, (e.2.2.2 = "count" ↔ (e.1 = "Unroll" ∧ e.2.1 = "Some(v)"))) := by decide
+
 /-- **literals**: whatever `generate_literal` emits for a constant has the constant's value, and its static type is the
 constant's type — except that a typed `Int32` constant becomes an *unsuffixed* literal (static type "literal int"),
 with the same integer value (`Sim` / `astTy` / `astVal`).  Covers `-0` (`IntLiteral 0`), negative values (printed as
